@@ -312,7 +312,7 @@ def step_bound(prog):
     return min(2 * prog.n + 4, 72)
 
 
-def equivalent(impl, spec, hooks, marker_filter, OI=10, E=12, sel_range=None, timeout_ms=120000, compare_ret=False, nparams=0):
+def equivalent(impl, spec, hooks, marker_filter, OI=10, E=12, sel_range=None, timeout_ms=300000, compare_ret=False, nparams=0):
     """z3 query: is there an oracle stream on which IMPL and SPEC (with hooks) both terminate within their step
     bounds and their (filtered) event logs / termination kinds differ?
     -> ("unsat"|"sat"|"unknown", schedule or None, stats)"""
